@@ -17,6 +17,8 @@
 //    O: a read from the start of a file gives the verdict and the tree of mpt_parse_node on the same bytes with
 //    the same format and flags; a read behind a complete read delivers the empty tree; a failed read leaves the
 //    target node unchanged; open/reset report success exactly when the file exists; no leak.
+#include <dirent.h>
+#include <signal.h>
 #include <unistd.h>
 
 #include "vp.hpp"
@@ -281,6 +283,23 @@ struct TmpFile {
     return fclose(f) == 0 && n == doc.size();
   }
 };
+// a case that dies in a sanitizer report cannot remove its files: once per process, remove the files of processes
+// that no longer exist
+static void sweep_stale_files() {
+  static bool done = false;
+  if (done) return;
+  done = true;
+  DIR *d = opendir(".");
+  if (!d) return;
+  std::vector<std::string> stale;
+  while (struct dirent *e = readdir(d)) {
+    long pid = 0;
+    char tag = 0, rest = 0;
+    if (sscanf(e->d_name, "c08-%ld-%c.con%c", &pid, &tag, &rest) == 3 && rest == 'f' && pid > 1 && kill((pid_t)pid, 0) < 0 && errno == ESRCH) stale.push_back(e->d_name);
+  }
+  closedir(d);
+  for (auto &n : stale) unlink(n.c_str());
+}
 struct CDoc {  // a document and what the C entry point makes of it
   std::string text;
   int rc = 0;
@@ -289,6 +308,7 @@ struct CDoc {  // a document and what the C entry point makes of it
 
 static void run_cxx(Ctx &c) {
   c.label("entry: mpt::config_parser");
+  sweep_stale_files();
   // format: what the class sets up itself, what mpt::layout passes to set_format(), or a drawn well-formed one
   static const int fam[] = {'*', 'x', ' ', '_'};
   size_t fsel = c.weighted({4, 2, 2});
@@ -304,10 +324,13 @@ static void run_cxx(Ctx &c) {
   c.logf("%s", show(fl).c_str());
   c.label(fsel == 0 ? "cxx:default-format" : fsel == 1 ? "cxx:layout-format" : "cxx:drawn-format");
 
+  // operation sequence, set aside before the documents use up the case bytes
+  std::vector<uint8_t> opb = c.bytes(c.range(2, 14));
+  Ctx oc(opb.data(), opb.size(), false);
   // two documents for that format (mutated now and then, so that reads fail as well)
   std::vector<uint8_t> deco[2] = {deco_bytes(c), deco_bytes(c)};
   std::vector<uint8_t> mut[2];
-  for (int i = 0; i < 2; i++) if (c.chance(80)) mut[i] = c.bytes(c.range(1, 6));
+  for (int i = 0; i < 2; i++) if (c.chance(110)) mut[i] = c.bytes(c.range(1, 6));
   GenLimits lim;
   lim.max_nodes = 16;
   lim.huge_values = false;
@@ -347,10 +370,11 @@ static void run_cxx(Ctx &c) {
   bool fresh = false;  // positioned at the start of that file
   bool at_end = false; // the last read consumed the file completely and succeeded
   size_t fresh_ok = 0, nops = 0, failed_on_populated = 0;
-  for (bool first = true; first || (nops < 14 && c.more()); first = false, ++nops) {
-    size_t op = first ? 2 : c.weighted({5, 3, 1, 1, 1});
+  for (bool first = true; first || !oc.exhausted(); first = false, ++nops) {
+    uint8_t ob = first ? 0 : oc.u8();  // low bits: operation, bit 7: target node of a read
+    size_t op = first ? 2 : (size_t[]){0, 0, 0, 0, 0, 1, 1, 1, 2, 3, 4, 0, 1, 0, 1, 0}[ob & 15];
     if (op == 0 && cur >= 0) {
-      int k = (int)c.pick(2);
+      int k = ob >> 7;
       std::vector<const node *> before, after;
       { std::vector<Node> tmp; read_list(to[k].children, tmp, &before); }
       int r = parse.read(to[k], 0);
@@ -504,7 +528,7 @@ static Target t = {
     "NULL, unknown family, arbitrary bytes) x name flags x input (C09-printed document with 0-3 mutations: truncate, duplicate/delete/insert delimiter, stray quote, NUL, high bytes, "
     "runs near 255/256/65535/65536, byte replace/swap; or token soup; optional read error) x entry (mpt_parse_config with recording handler that may refuse an element | mpt_parse_node into empty / "
     "harness-built populated / previously parsed root). non-trivial: parse reached depth >= 2, or failed after at least one accepted element (parse_node: failed on a non-empty input), "
-    "or merged into a populated root. C++ front end (1 case in 8): mpt::config_parser (default / layout / drawn format, built-in name flags) on two generated files, open then <= 14 of "
+    "or merged into a populated root. C++ front end (1 case in 8): mpt::config_parser (default / layout / drawn format, built-in name flags) on two generated files, open then 2-14 of "
     "read / reset / open A / open B / open missing, differential against mpt_parse_node on the same bytes; non-trivial: >= 2 non-empty reads from the start of a file or a failed read "
     "into a populated target. Distinct by hash of the draw sequence.",
     run,
